@@ -286,8 +286,8 @@ impl Monitor for C03 {
         N_DIRECTED
             + match t {
                 Tier::Tiny => 24,
-                Tier::Quick => 12_000,
-                Tier::Thorough => 150_000,
+                Tier::Quick => 384000,
+                Tier::Thorough => 3840000,
             }
     }
     fn rule(&self) -> &'static str {
